@@ -30,12 +30,13 @@ const MinPackages = 38
 
 // Prog is the loaded, type-checked program with its SSA form.
 type Prog struct {
-	Repo  string
-	Fset  *token.FileSet
-	Pkgs  []*packages.Package          // scope packages (repo only)
-	ByPth map[string]*packages.Package // import path -> package (scope only)
-	All   map[string]*packages.Package // every package incl. dependencies
-	SSA   *ssa.Program
+	Repo   string
+	CfgEnv []string // GOOS= / GOARCH= of the configuration analysed (empty: host)
+	Fset   *token.FileSet
+	Pkgs   []*packages.Package          // scope packages (repo only)
+	ByPth  map[string]*packages.Package // import path -> package (scope only)
+	All    map[string]*packages.Package // every package incl. dependencies
+	SSA    *ssa.Program
 
 	cgOnce sync.Once
 	cg     *callgraph.Graph
@@ -51,7 +52,22 @@ type Prog struct {
 func Load(dir string, goos string) (*Prog, error) {
 	env := append(os.Environ(), "GOWORK=off", "GOFLAGS=-mod=mod", "GOPROXY=off", "CGO_ENABLED=0")
 	if goos != "" {
-		env = append(env, "GOOS="+goos)
+		// "os" or "os/arch"
+		if i := strings.Index(goos, "/"); i >= 0 {
+			env = append(env, "GOOS="+goos[:i], "GOARCH="+goos[i+1:])
+			switch goos[i+1:] {
+			case "386", "arm", "mips", "mipsle":
+				IntBits = 32
+			}
+		} else {
+			env = append(env, "GOOS="+goos)
+		}
+	}
+	var cfgEnv []string
+	for _, e := range env {
+		if strings.HasPrefix(e, "GOOS=") || strings.HasPrefix(e, "GOARCH=") {
+			cfgEnv = append(cfgEnv, e)
+		}
 	}
 	cfg := &packages.Config{
 		Mode:  packages.LoadAllSyntax,
@@ -63,7 +79,7 @@ func Load(dir string, goos string) (*Prog, error) {
 	if err != nil {
 		return nil, fmt.Errorf("load: %w", err)
 	}
-	p := &Prog{Repo: dir, ByPth: map[string]*packages.Package{}, All: map[string]*packages.Package{}}
+	p := &Prog{Repo: dir, CfgEnv: cfgEnv, ByPth: map[string]*packages.Package{}, All: map[string]*packages.Package{}}
 	var errs []string
 	packages.Visit(pkgs, nil, func(pk *packages.Package) {
 		p.All[pk.PkgPath] = pk
